@@ -136,6 +136,18 @@ def parse_reply(b):
     return cmd, sess, status, ctx, opts, body
 
 
+class _ScriptedRandom:
+    """stands in for the `random` module inside cpppo.server.enip.ucmm: randint answers from a script first"""
+    def __init__(self, real, script):
+        self._real, self._script = real, list(script)
+
+    def randint(self, a, b):
+        return self._script.pop(0) if self._script else self._real.randint(a, b)
+
+    def __getattr__(self, n):
+        return getattr(self._real, n)
+
+
 def run_impl(cfg, frames, whole, aborted_before=None):
     """fresh simulator with the given personality -> (reply frames, error, store image).
     aborted_before: bytes of an earlier session from the SAME peer address that ended inside a frame"""
@@ -162,6 +174,11 @@ def run_impl(cfg, frames, whole, aborted_before=None):
         conn.send = lambda b, _c=conn: (_c.sent.append(bytes(b)), len(b))[1]       # keep the real session handles
         saved = network.recv
         network.recv = lambda c, maxlen=4096, timeout=None: c.recv(maxlen)
+        # the session handle is drawn at random: the run that reads frame by frame makes the generator's first draws the
+        # awkward ones (0, and a value drawn before), which the property must survive like any other outcome
+        saved_random = ucmm.random
+        if not whole:
+            ucmm.random = _ScriptedRandom(saved_random, [0, 0])
         err = None
         try:
             main.enip_srv_tcp(conn, ('10.6.6.6', 40600), 'c06', logix.process, server=srv, UCMM_class=U)
@@ -169,9 +186,64 @@ def run_impl(cfg, frames, whole, aborted_before=None):
             err = type(e).__name__
         finally:
             network.recv = saved
+            ucmm.random = saved_random
         return conn.sent, err, L.hash_list(im.image())
     finally:
         im.close()
+
+
+def cm_frames(rng):
+    """a session mixing tag reads with the Connection Manager's services (Forward Open small / large, Forward Close for an open and for
+    an unknown connection), every frame built by the reference encoder -> [(frame, expected reply service, context)]"""
+    from props import c01, codec_common as K
+    out = [(hdr(0x65, struct.pack('<HH', 1, 0), 0, b'cmregist'), None, b'cmregist')]
+    opened = []
+    for i in range(rng.randrange(3, 9)):
+        cx = b'cm%06d' % i
+        k = rng.random()
+        if k < 0.3:
+            f = frame_of(('send', None, ('read', ('sym', 'T', None), rng.choice([1, 4]))), 0x1234, cx, 0)
+            out.append((f, 0xCC, cx)); continue
+        if k < 0.75 or not opened:
+            large = rng.random() < 0.5
+            size = rng.choice([512, 1000, 4000]) if large else rng.choice([100, 500, 511])
+            fo = dict(path=[('class', 6), ('instance', 1)], prio=10, ticks=5, ot=(rng.getrandbits(32), 2000000, (size, 1, 0, 2, 0)),
+                      to=(rng.getrandbits(32), 2000000, (rng.choice([100, 500]), 1, 0, 2, 0)), serial=rng.getrandbits(16), vendor=0x1337,
+                      oserial=rng.getrandbits(32), mult=3, transport=0xA3, cpath=[('port', 1, 0), ('class', 2), ('instance', 1)])
+            body = c01.model_enc(11, 0, [K.fo_tree(fo, K.ncp_model(large, fo['ot'][2]), K.ncp_model(large, fo['to'][2]), large)])[0]
+            opened.append(fo)
+            want = 0xDB if large else 0xD4
+        else:
+            fo = rng.choice(opened) if rng.random() < 0.7 else dict(rng.choice(opened), serial=rng.getrandbits(16))
+            body = c01.model_enc(11, 0, [K.cm_tree(dict(kind='fc_req', path=fo['path'], prio=10, ticks=5, serial=fo['serial'], vendor=fo['vendor'],
+                                                        oserial=fo['oserial'], cpath=fo['cpath']))])[0]
+            want = 0xCE
+        if not isinstance(body, bytes):
+            raise core.HarnessError('reference encoder refused a Connection Manager request')
+        pay = struct.pack('<IHHHHHH', 0, 8, 2, 0, 0, 0xB2, len(body)) + body
+        out.append((hdr(0x6F, pay, 0x1234, cx), want, cx))
+    return out
+
+
+def cm_sessions(ctx, bad):
+    n = 0
+    for _ in range(120 if ctx.thorough else 25):
+        plan = cm_frames(ctx.rng)
+        n += 1
+        replies, err, _ = run_impl(None, [f for f, _, _ in plan], whole=True)
+        w = dict(frames=[f.hex() for f, _, _ in plan], replies=[r.hex() for r in replies], error=err, expected_services=[s for _, s, _ in plan])
+        if len(replies) != len(plan):
+            bad(w, '%d reply frames for %d pipelined requests (Connection Manager services among them)' % (len(replies), len(plan))); continue
+        for i, ((f, svc, cx), r) in enumerate(zip(plan, replies)):
+            p = parse_reply(r)
+            if p is None or p[3] != cx or p[2] != 0:
+                bad(dict(w, at=i), 'request #%d is not answered by a status-0 frame carrying its sender context' % i); break
+            if svc is None:
+                continue
+            cip = E.unwrap_send_data(p[5])
+            if p[0] != 0x6F or cip is None or not cip or cip[0] != svc:
+                bad(dict(w, at=i), 'request #%d is not answered inside SendRRData framing by service 0x%02x' % (i, svc)); break
+    return n
 
 
 def run(ctx):
@@ -211,6 +283,11 @@ def run(ctx):
             nbad += 1
             if nbad <= 4:
                 ctx.violation(dict(w, replies_frame_by_frame=[r.hex() for r in r2]), 'replies differ between pipelined and one-at-a-time delivery of the same requests')
+            continue
+        if any(r[:2] == b'\x65\x00' and r[4:8] == bytes(4) and r[8:12] == bytes(4) for r in r2):
+            nbad += 1
+            ctx.violation(dict(w, replies_frame_by_frame=[r.hex() for r in r2], random_draws='0, 0, then random'),
+                          'Register Session answered with session handle 0 when the first random draws are 0')
             continue
         parsed = [parse_reply(r) for r in replies]
         if any(p is None for p in parsed):
@@ -285,7 +362,14 @@ def run(ctx):
         nbad += 1
         ctx.violation(dict(scenario='front simulator with [UCMM] Route 1/1 -> delaying proxy -> back simulator', problem=pm),
                       'forwarded (routed) request: ' + pm)
-    cov['evaluations'] = 2 * len(cases) + 4
+    def cm_bad(w, what):
+        nonlocal nbad
+        nbad += 1
+        if nbad <= 4:
+            ctx.violation(w, what)
+    ncm = cm_sessions(ctx, cm_bad)
+    cov['connection_manager_sessions'] = ncm
+    cov['evaluations'] = 2 * len(cases) + 4 + ncm
     cov['distinct_nontrivial'] = nrep
     cov['exhaustive'] = False
     cov['rule'] = ('%d generated sessions of 2-9 requests (Register anywhere / twice / missing, List*, Unregister mid-session, SendRRData reads, fragmented reads, writes, '
